@@ -4,7 +4,7 @@ re-checks — the modules of the functions the property's behaviour is built fro
 import os
 OB = '/verif/lean/obligations'
 USES = {
- 'C01': ['Slice', 'SliceFns', 'Str', 'StrFns', 'Chr', 'Bytes', 'Bytes2', 'BytesTrim', 'Chars', 'SliceIter', 'Split', 'SplitTerm', 'Array', 'CStr', 'SliceIter2', 'ProbesArr'],
+ 'C01': ['Slice', 'SliceFns', 'Str', 'StrFns', 'Chr', 'Bytes', 'Bytes2', 'BytesTrim', 'Chars', 'SliceIter', 'Split', 'SplitTerm', 'Array', 'CStr', 'CStr2', 'SliceIter2', 'ProbesArr'],
  'C11': ['Array', 'ProbesArr'],
  'C15': ['Array', 'ProbesArr'],
  'C02': ['Slice', 'SliceFns', 'SliceIter'],
@@ -20,7 +20,7 @@ USES = {
  'C14': ['Bytes', 'Bytes2', 'BytesTrim', 'StrFns', 'ParserA', 'ParserB', 'ParseInt'],
  'C16': ['Cmp', 'Cmp2', 'ProbesMisc'],
  'C18': ['StrFns', 'ParserA', 'ProbesPm'],
- 'C20': ['Chr', 'Slice', 'Concat', 'CStr'],
+ 'C20': ['Chr', 'Slice', 'Concat', 'SliceConcat', 'CStr', 'CStr2'],
  'C19': ['ProbesOpt', 'ProbesMisc'],
  'C10': ['SliceIter2', 'ProbesIter', 'ProbesIterModel'],
 }
